@@ -82,6 +82,13 @@ package group
 //@   modifies nothing
 //@   fresh
 //@   invariant loop 1 clients: fresh(clients) || isnil(clients)
+//@   -- every member other than except is in the snapshot: the keys the range has produced are in it, and the range ends only when it has
+//@   -- produced every key (the table is not written meanwhile: the lock is held)
+//@   invariant loop 1 collected: forall k string :: visited(1, k) && g.clients[k] != except ==> (exists i int :: 0 <= i && i < len(clients) && clients[i] == g.clients[k])
+//@   ensures all-members: forall k string :: has(g.clients, k) && g.clients[k] != except ==> (exists i int :: 0 <= i && i < len(result) && result[i] == g.clients[k])
+//@   -- and except is not
+//@   invariant loop 1 not-except: forall i int :: 0 <= i && i < len(clients) ==> clients[i] != except
+//@   ensures not-except: forall i int :: 0 <= i && i < len(result) ==> result[i] != except
 //@
 //@ func (*Group).GetClients
 //@   safe
@@ -90,6 +97,9 @@ package group
 //@   requires unlocked: !held(g.mu)
 //@   modifies held(g.mu)
 //@   ensures unlocked: !held(g.mu)
+//@   -- the snapshot holds every registered client other than except, and not except
+//@   ensures all-members: forall k string :: has(g.clients, k) && g.clients[k] != except ==> (exists i int :: 0 <= i && i < len(result) && result[i] == g.clients[k])
+//@   ensures not-except: forall i int :: 0 <= i && i < len(result) ==> result[i] != except
 //@   -- (invariant of the table of clients, assumed: the clients registered in a group are real and belong to it - AddClient registers c
 //@   --  only in the group it joins - or have already been detached)
 //@   trusts members-belong: forall i int :: 0 <= i && i < len(result) ==> result[i] != nil
@@ -195,6 +205,10 @@ package group
 //@        ghostint("lockeval", icall("group.Client.Group", c))
 //@   invariant loop 1 range: -1 <= rangeindex && rangeindex < len(clients)
 //@   ensures unlocked: isnil(icall("group.Client.Group", c)) || !held(icall("group.Client.Group", c).mu)
+//@   -- C10: the autolock/autokick rule is evaluated on the table without the leaver, in the critical section of the removal: when the
+//@   -- last operator leaves, the rule sees a group without operators
+//@   assert at call autoLockKick after-removal: held(g.mu) && !has(g.clients, icall("group.Client.Id", c))
+//@   assert at call Unlock#2 evaluated: ghostint("lockeval", g) == old(ghostint("lockeval", icall("group.Client.Group", c))) + 1
 //@
 //@ func AddClient
 //@   props C10 C13 C14
@@ -349,6 +363,9 @@ package group
 //@   ensures shorter: len(result) <= len(h) && ref(result) == ref(h)
 //@   ensures order: forall k int :: 0 <= k && k < len(result) ==> result[k].Id == old(h[k + (len(h) - len(result))].Id)
 //@        && result[k].Source == old(h[k + (len(h) - len(result))].Source) && result[k].Kind == old(h[k + (len(h) - len(result))].Kind)
+//@   -- C15: entries are discarded from the oldest on until one is found that is not older than the configured age: if anything is kept,
+//@   -- the scan ended at an entry that was tested and found young enough (it did not just run out of entries to test)
+//@   ensures first-kept-tested: len(result) > 0 ==> callresult("Since", 1) <= duration
 //@
 //@ func (*Group).GetChatHistory
 //@   safe
@@ -750,7 +767,7 @@ package group
 //@
 //@ func (*Description).GetPermission
 //@   safe
-//@   props C08 C09 C10 C12
+//@   props C08 C09 C10 C12 C19
 //@   requires nonnil: desc != nil
 //@   requires token-store-free: !held(token.tokens.mu)
 //@   -- (looking a stateful token up may reload the token file)
@@ -770,6 +787,7 @@ package group
 //@   proves token-perms: creds.Token != "" && result2 == nil ==> same(result1, second(callresult("Check", 1)))
 //@   proves token-name: creds.Token != "" && result2 == nil && first(callresult("Check", 1)) != "" ==> result0 == first(callresult("Check", 1))
 //@   proves token-no-shadow: creds.Token != "" && result2 == nil && first(callresult("Check", 1)) == "" && creds.Username != nil ==> result0 == *creds.Username && !has(desc.Users, *creds.Username)
+//@   -- C19: whichever way the client logs in (password, stateful token, JWT), the name it is admitted under is acceptable as a path component
 //@   ensures valid-name: result2 == nil ==> validUsername(result0)
 //@
 //@ -- ------------------------------------------------------------------ kicking and shutdown (C13: no self-deadlock)
